@@ -18,7 +18,8 @@ EXPLANATION = ("One ledger, decided structurally: (R1) dimension-and-scale infer
                "current_charging_rates has one element per EVSE, the connected EV's rate under a None-guard and literal 0 "
                "otherwise; (R7) both recording writes store that vector at column exactly = period counter, the aggregate "
                "is a sum of it and peak = max(previous peak, aggregate)."
-               ' Added in round 3: aggregate power / current as defined (shared with C18), the ledger starts at zero, the loop-structure rules of C01 incl. array growth; generic well-formedness of every analysed function.')
+               ' Added in round 3: aggregate power / current as defined (shared with C18), the ledger starts at zero, the loop-structure rules of C01 incl. array growth; generic well-formedness of every analysed function.'
+               ' Added after the mutation matrix: the stored gain, the reported power and the returned rate carry the same energy as identities between source expressions (term rewriting) for all three battery routines; generic rules G1-G3.')
 NOT_DECIDED = "float equality of the three stored totals over a run"
 
 ALLOWED_WRITERS = {
